@@ -102,7 +102,7 @@ CONTAINER_STUBS = ["std HashMap/HashSet in src/network_filter_list.rs and src/bl
                    "verif_shim::rule_matches (identity indirection for filter.matches at the bucket-scan call sites) -> M[rule id]: the per-rule matcher outcome is a free symbolic boolean per rule (decided separately under C02/C03)"]
 SCAN_LAYOUT = [("o1", "bool"), ("o2", "bool"), ("rt", "u8"), ("http", "bool"), ("https", "bool"), ("tp", "bool")]
 def scan(pid, name, harness, tags, a_on, what, tiers=(Q, T)):
-    return kern("%s.%s" % (pid, name), "src/network_filter_list.rs", "h_network_filter_list.rs", harness, list(tiers), 80, 900, 16 if "all" in harness else 8,
+    return kern("%s.%s" % (pid, name), "src/network_filter_list.rs", "h_network_filter_list.rs", harness, list(tiers), 80, {Q: 900, T: 3000}, 16 if "all" in harness else 8,
                 ["network_filter_list::NetworkFilterList::check" if "all" not in harness else "network_filter_list::NetworkFilterList::check_all", "request::Request::get_tokens_for_match"],
                 "one bucket holding two rules with tags %s in this order, tag 'a' %s; per-rule matcher outcomes and request flags symbolic" % (tags, "enabled" if a_on else "not enabled"),
                 SCAN_LAYOUT, "c01_scan", asserts=what, stubs=CONTAINER_STUBS + STD_REGEX_STUBS, subst=CONTAINER_SUBST, consts={"tags": tags, "a_on": a_on, "all": "all" in harness},
@@ -362,7 +362,7 @@ PROPERTIES["C11"] = dict(
         kern("C11.split_t", "src/filters/abstract_network.rs", "h_abstract_network.rs", "c11_split_t", [T], 270, 2400, 12, ["filters::abstract_network::AbstractNetworkFilter::parse"],
              "line = ASCII? . arbitrary char? . ASCII?", SPLIT_LAYOUT, "c11_split", asserts="as C11.split", panic_free=True,
              stubs=["filters::abstract_network::parse_filter_options -> Err"]),
-        kern("C11.sep", "src/resources/resource_storage.rs", "h_resource_storage.rs", "c18_sep", [T], 670, 3000, 16, ["resources::resource_storage::index_next_unescaped_separator"],
+        kern("C11.sep", "src/resources/resource_storage.rs", "h_resource_storage.rs", "c18_sep", [T], 2000, 5400, 16, ["resources::resource_storage::index_next_unescaped_separator"],
              "3 printable ASCII bytes, symbolic length", [("b", B(3)), ("l", "usize")], "c18_sep", asserts="no panic; returned index in range, points at an unescaped ','; None only if every ',' is escaped", panic_free=True),
     ],
     level_text="Decides totality (no panic, every slice on a char boundary) of the network-rule front end (exception / '$' split / anchors) on strings that put an arbitrary Unicode scalar next to the ASCII delimiters the offsets are computed from; thorough adds the scriptlet-argument separator scan. Thin claim.",
@@ -426,7 +426,7 @@ PROPERTIES["C18"] = dict(
              ["resources::PermissionMask::is_injectable_by", "resources::PermissionMask::is_default", "resources::PermissionMask::from_bits"],
              "all 256 x 256 (required, granted) pairs", [("required", "u8"), ("granted", "u8")], "c18_perm",
              asserts="is_injectable_by(required, granted) <=> every required bit is granted; is_default <=> no bit; `|` and `|=` are the bitwise union (per-host permission of an injection = union over the requesting rules)"),
-        kern("C18.sep", "src/resources/resource_storage.rs", "h_resource_storage.rs", "c18_sep", [T], 670, 3000, 16, ["resources::resource_storage::index_next_unescaped_separator"],
+        kern("C18.sep", "src/resources/resource_storage.rs", "h_resource_storage.rs", "c18_sep", [T], 2000, 5400, 16, ["resources::resource_storage::index_next_unescaped_separator"],
              "3 printable ASCII bytes, symbolic length", [("b", B(3)), ("l", "usize")], "c18_sep", asserts="no panic; returned index in range, points at an unescaped ','; None only if every ',' is escaped", panic_free=True),
     ],
     level_text="Decides, for all 256x256 mask pairs, that the permission gate predicate every scriptlet/dependency/redirect decision calls is exactly 'required bits are a subset of granted bits'; thorough adds the +js(...) separator scan. Thin claim: the argument-literal encoding and the dependency walk are outside.",
